@@ -486,6 +486,11 @@ def run(ctx):
                     k += 1
                     idx = str(args[0])
                     nonzero = any((not v) and g.split("#")[0] == "%s matches 0" % idx for g, v in pc["guards"].items()) or any(v and g.split("#")[0] == "(0 < %s)" % idx for g, v in pc["guards"].items())
+                    if not nonzero and idx == "item":
+                        # the index is the item of `for i in (N..=last).rev()` / `(N..len).rev()`: non-zero when N >= 1
+                        begins = [re.match(r"loop-begin for _ in \(?(\d+)\.\.", b) for b, _ in pc["actions"][:pc["actions"].index((a, args)) if (a, args) in pc["actions"] else None]]
+                        begins = [m for m in begins if m]
+                        nonzero = bool(begins) and int(begins[-1].group(1)) >= 1
                     if not nonzero:
                         bad = "step_foreign truncates the stack of open elements at index %s without having excluded index 0: an end tag naming the root (</html> in an SVG / MathML fragment) empties the stack" % idx[:50]
         ctx.ob("R04.2", "foreign-end-tag-never-empties-the-stack", bad is None and k >= 1, bad or "%d truncations, each at an index known to be non-zero" % k, "html5ever tree_builder step_foreign")
